@@ -231,9 +231,10 @@ theorem removeWorker_split {s s' : State} {w : Nat} {reason : String} {f : Bool}
                           subst hid
                           exact ⟨task, findTask_some_mem ht', findTask_some_id ht', Or.inr ⟨others, by rw [hs, hroot]⟩⟩
                         · cases hid
-                · cases hp1
+                · rename_i hroot
+                  cases hp1
                   exact ⟨Evo.set (s := { s with workers := _ }) rfl ht'
-                    (TRel.state task _ (by simp [hs]) (by simp)), setTask_ids _ _, fun _ hid => by cases hid⟩
+                    (TRel.filterMN task hs hroot), setTask_ids _ _, fun _ hid => by cases hid⟩
               · cases hp1
             · cases hp1
       have hn1 : (taskIds s1.tasks).Nodup := e1.2.1 ▸ hn
